@@ -49,12 +49,23 @@ def main():
         meta['demo_with_change_exit'] = rc1
         meta['demo_without_change_exit'] = rc0
         meta['demo_with_change_tail'] = out1[-300:]
-    # our checks against the patched /repo
-    rc, out = sh(f'git apply {os.path.join(d, "patch.diff")}', cwd='/repo')
+    # our checks against the patched /repo (or, with SEEDED_SCRATCH=1 while other jobs read /repo, against a
+    # patched scratch copy via DSIM_REPO; tools/seeded_rerun.py later repeats it on /repo itself)
+    scratch = None
+    if os.environ.get('SEEDED_SCRATCH'):
+        scratch = f'/tmp/seeded_scratch_{name}'
+        shutil.rmtree(scratch, ignore_errors=True)
+        shutil.copytree('/repo', scratch, ignore=shutil.ignore_patterns('.git', '__pycache__'))
+        sh('git init -q . && git add -A >/dev/null 2>&1', cwd=scratch)
+        meta['mode'] = 'scratch copy (prescreen)'
+    target = scratch or '/repo'
+    rc, out = sh(f'git apply {os.path.join(d, "patch.diff")}', cwd=target)
     assert rc == 0, out
     try:
         for c in checks:
             env = dict(os.environ, DSIM_SHRINK_S='20', DSIM_EVIDENCE_DIR='/tmp/dsim_seeded_evidence')
+            if scratch:
+                env['DSIM_REPO'] = scratch
             if c in ('C37', 'C38'):
                 env['DSIM_NUMPY'] = '1'
             t0 = time.time()
@@ -63,7 +74,10 @@ def main():
             meta['ran'].append({'check': c, 'exit': rc, 'wall_s': round(time.time() - t0, 1), 'lines': [v[:400] for v in viol[:3]]})
             print(name, c, 'exit', rc, viol[:1])
     finally:
-        sh('git checkout -- .', cwd='/repo')
+        if scratch:
+            shutil.rmtree(scratch, ignore_errors=True)
+        else:
+            sh('git checkout -- .', cwd='/repo')
     rc, out = sh('git status --short', cwd='/repo')
     assert not out.strip(), out
     meta['detected_by'] = [r['check'] for r in meta['ran'] if r['exit'] == 1]
